@@ -293,6 +293,35 @@ pub fn run() -> i32 {
                 }
             }
         }
+        // C12: every quoting style x bodies outside the recorded findings
+        for b in ["", "b", "B"] {
+            for raw in ["", "r", "R"] {
+                for q in ["'", "\"", "'''", "\"\"\""] {
+                    let mut bodies: Vec<&str> = vec!["", "a", "é💖z", "a b"];
+                    if raw.is_empty() {
+                        bodies.extend(["\\n", "x\\ty", "\\x41", "\\X6a", "\\101", "\\377", "\\\\", "\\?", "\\`", "\\a\\b\\f\\r\\v"]);
+                        if b.is_empty() {
+                            bodies.extend(["\\u00e9", "\\U0001F600", "\\ud800", "\\U00110000"]);
+                        } else {
+                            bodies.extend(["\\u00e9", "\\'", "\\\""]);
+                        }
+                    } else {
+                        bodies.extend(["\\n", "\\x41 \\q"]);
+                    }
+                    for body in bodies {
+                        let text: Vec<char> = format!("{}{}{}{}{}", b, raw, q, body, q).chars().collect();
+                        let mut vals = vec![vec![text.len() as u8]];
+                        vals.extend(text.iter().map(|c| (*c as u32).to_le_bytes().to_vec()));
+                        crate::sym::load(vals);
+                        n += 1;
+                        if std::panic::catch_unwind(|| crate::node::c12_literal()).is_err() {
+                            c11_bad += 1;
+                            eprintln!("SELFTEST-FAIL: c12_literal: {}", text.iter().collect::<String>());
+                        }
+                    }
+                }
+            }
+        }
         for code in 0..8u8 {
             crate::sym::load(vec![vec![code]]);
             n += 1;
